@@ -187,6 +187,20 @@ def bits_none(bs):
     return T.icmp("eq", T.concat(list(bs)), T.const(len(bs), 0))
 
 
+def judge_mfromarray(ctx, inst, S):
+    """construction from std::array<bool, N>: the N given values are reproduced (closed-form comparison over the
+    memory bits) and nothing but the N bytes of the array is read - an array that ends at the end of a mapped
+    page must not fault"""
+    import runner
+    import memjudge
+    from common import REFUTED
+    n = ctx.vt.n
+    v, d, r, w = memjudge._footprint(ctx, S, n, n, "mask from std::array<bool, %d>" % n, ptr="arr")
+    if v == REFUTED:
+        return v, d, r, w
+    return runner.judge_default(ctx, inst, S)
+
+
 def fam_mask(vt, cfg):
     I = []
     n = vt.n
@@ -217,7 +231,8 @@ def fam_mask(vt, cfg):
     I.append(Inst("massignbool", [("M", "m"), ("B", "b")], "M", "m", lambda c: c.pack_mask([c.args["b"]] * c.vt.n),
                   pre="m = b;"))
     I.append(Inst("mfromarray", [("BA", "arr")], "M", "M{*arr}",
-                  lambda c: c.pack_mask([T.mk("mem", 1, c.args["arr"], i, 0) for i in range(c.vt.n)]), pure=False))
+                  lambda c: c.pack_mask([T.mk("mem", 1, c.args["arr"], i, 0) for i in range(c.vt.n)]), pure=False,
+                  judge=judge_mfromarray))
     # mask <-> vector
     if vt.is_float:
         one = 0x3F800000 if vt.eb == 32 else 0x3FF0000000000000
